@@ -56,6 +56,15 @@ let () =
           (match vs_setattr !writable (z nf) l (z (i 2)) (unhex (t 3)) (z (i 4)) (z (i 5)) (unhex (t 6)) with
            | VOk l' -> !vds.(i 1) <- (nf, l'); "ok"
            | VFail -> "fail")
+        | "vs.rsetattr" :: _ ->
+          let (nf, l) = !vds.(i 1) in
+          (match vs_setattr false (z nf) l (z (i 2)) (unhex (t 3)) (z (i 4)) (z (i 5)) (unhex (t 6)) with
+           | VOk l' -> !vds.(i 1) <- (nf, l'); "ok"
+           | VFail -> "fail")
+        | "vg.rsetattr" :: _ ->
+          (match vg_setattr false !vgs.(i 1) (unhex (t 2)) (z (i 3)) (z (i 4)) (unhex (t 5)) with
+           | VOk l' -> !vgs.(i 1) <- l'; "ok"
+           | VFail -> "fail")
         | "vs.raw" :: _ -> dump_tab (snd !vds.(i 1))
         | "vg.create" :: _ -> vgs := Array.append !vgs [| [] |]; Printf.sprintf "ok %d" (Array.length !vgs - 1)
         | "vg.setattr" :: _ ->
